@@ -19,7 +19,7 @@ RULE = ("coarsen leg: 18 bin tables (1-3 chromosomes with fewer/exactly/more bin
         "task while the file is open for writing, writes and tasks under the lock, no pending task at release, no deadlock); one "
         "real multiprocess.Pool(2) conformance run per configuration; chain leg: k1 then k2 == k1*k2, coarsen(merge) == "
         "merge(coarsen), same-file vs new-file destination. Non-trivial: >=2 pixels and >=1 group with 2 members. Distinct by construction.")
-EXTRA_LEGS = 'binsizes: every old bin size b and factor k in {2,3,5,7} with b*k <= 256 (thorough 1024) on 40 coarse bins with partial groups, chunksize {1e6, 97}.'
+EXTRA_LEGS = 'binsizes: every old bin size b and factor k in {2,3,5,7} with b*k <= 256 (thorough 1024) on 40 coarse bins with partial groups, chunksize {1e6, 97}.' + ' every other case writes into an output path that already holds another coarsening.'
 BOUNDS = {"quick": "18 tables; chunksize {1,1e6} everywhere, {2,3,nnz} for k=2 symmetric; schedules: deviation bound 1; binsizes: every old bin size b and k in {2,3,5,7} with b*k <= 256 on 40 coarse bins + partial groups, chunksize {1e6, 97}",
           "thorough": "chunksize {1,2,3,nnz,1e6} everywhere; schedules: deviation bound 2; all structured matrices on 8-bin tables; binsizes with b*k <= 1024"}
 ASSUMPTIONS = ["worker processes are explored through the Pool seam in one interpreter (tasks run on dill copies, in every order); "
